@@ -38,7 +38,7 @@ type Fault struct {
 	Slot   Slot   `json:"slot"`
 	Mut    Mut    `json:"mut"`
 	Mode   string `json:"mode"`   // replace | inject (deliver the altered message, then also the honest one)
-	Timing string `json:"timing"` // natural | early (as soon as the session starts)
+	Timing string `json:"timing"` // natural | after-broadcast | early (schedule in which the deviator is served first and its messages arrive first)
 	build  func(m *protocol.Message) *protocol.Message
 	// State-level deviation: called with the deviator's handler after its construction and after every
 	// delivery to it; returns true once the deviation has been applied.
@@ -127,8 +127,37 @@ func run(spec *sess.Spec, seed int64, label string, f *Fault, observe func(drv.D
 	hook()
 	steps := 0
 	for len(net.Queue) > 0 && steps < 100000 {
-		d := net.Queue[0]
-		net.Queue = net.Queue[1:]
+		pick := 0
+		if f != nil && f.Timing == "early" {
+			// schedule "early": the deviator is served first and its messages are delivered first, so that
+			// (with three or more parties) its message for round k+1 reaches a party that still waits for
+			// somebody else's message of round k, is queued there, and is only processed when that other
+			// message completes round k
+			pick = -1
+			dev := f.Deviator
+			if dev == "" {
+				dev = f.Slot.From
+			}
+			for i, q := range net.Queue {
+				if q.To == dev {
+					pick = i
+					break
+				}
+			}
+			if pick < 0 {
+				for i, q := range net.Queue {
+					if q.M != nil && q.M.From == dev {
+						pick = i
+						break
+					}
+				}
+			}
+			if pick < 0 {
+				pick = 0
+			}
+		}
+		d := net.Queue[pick]
+		net.Queue = append(append([]drv.Delivery{}, net.Queue[:pick]...), net.Queue[pick+1:]...)
 		// timing "after-broadcast": the altered point-to-point message is held back until the same
 		// sender's broadcast of that round has been delivered to the same recipient (the handler then
 		// processes the p2p message directly instead of when the broadcast arrives)
